@@ -117,11 +117,12 @@ func (n *NameTrie[V]) DeleteIf(pred func(V) bool) {
 	if len(n.chd) > 0 || !pred(n.val) {
 		return
 	}
-	if n.par != nil {
+	if n.par != nil && n.par.chd[n.key] == n {
 		delete(n.par.chd, n.key)
 		n.par.DeleteIf(pred)
 	}
-	// Root node cannot be deleted.
+	// Root node cannot be deleted. A node that is already unlinked must not
+	// remove a newer node stored under the same key.
 }
 
 // Depth returns the depth of a node in the tree.
